@@ -396,6 +396,13 @@ func (db *DB) insertOrUpdate(s *Schema, o Object, commit bool) (err error) {
 		return
 	}
 
+	// an object which cannot be serialized must be rejected before
+	// it gets indexed, otherwise the index references an object which
+	// is never written
+	if _, err = json.Marshal(o); err != nil {
+		return
+	}
+
 	if err = s.index(o); err != nil {
 		return
 	}
@@ -952,6 +959,12 @@ func (db *DB) InsertOrUpdateMany(objects ...Object) (n int, err error) {
 		// validate object before insertion
 		if err = o.Validate(); err != nil {
 			err = validationErr(o, err)
+			return
+		}
+
+		// an object which cannot be serialized makes the insertion fail
+		// before anything is inserted (to remain atomic)
+		if _, err = json.Marshal(o); err != nil {
 			return
 		}
 
